@@ -91,6 +91,10 @@ SPECS = {
              "args": [("spot", "R"), ("mean", "R")], "ret": "R", "subst": {"self.model.spot": "spot", "self.model.mean(time)": "mean"}},
             {"kind": "return_rhs", "py": "COSPricer.put", "coq": "cos_put", "args": [("strikes", "R"), ("pf", "R")], "ret": "R",
              "subst": {"self._pricing_formula(np.log(spot / strikes), time, a, b, u_values)": "pf"}},
+            {"kind": "assign_rhs", "file": FFT, "py": "FFTPricer.put", "target": "fwd", "coq": "fft_fwd",
+             "args": [("spot", "R"), ("mean", "R")], "ret": "R", "subst": {"self.model.spot": "spot", "self.model.mean(maturity)": "mean"}},
+            {"kind": "assign_rhs", "file": FFT, "py": "FFTPricer.put", "target": "df", "coq": "fft_df",
+             "args": [("r", "R"), ("maturity", "R")], "ret": "R", "attrs": {"self.r": "r"}},
             {"file": VG, "py": "VGParameters.__init__", "coq": "vgR_c", "pyargs": ["sigma", "nu", "theta"], "args": VG_ARGS, "ret": "R",
              "attr_tail": "self._c"},
             {"file": VG, "py": "VGParameters.__init__", "coq": "vgR_lambda_p", "pyargs": ["sigma", "nu", "theta"], "args": VG_ARGS, "ret": "R",
